@@ -3,5 +3,5 @@ CONSTANTS
   Keys = {0, 1, 2}
   NT = 3
   WithEmpty = FALSE
-INVARIANTS EachKeyOnceAscending NewestWins NoForeignValue ScanIsGetOfLive CompactIsScan Emit
+INVARIANTS EachKeyOnceAscending NewestWins NoForeignValue ScanIsGetOfLive CompactIsScan NestedOldestIsFlat Emit
 CHECK_DEADLOCK FALSE
